@@ -205,6 +205,53 @@ def impl(case):
                         raise
                     except Exception as e:
                         res[tag] = dict(err='%s %s' % (type(e).__name__, str(e)[:80]))
+                # the map opened copy-on-write, every tracer taken twice: reading is a query, the second answer is the first
+                try:
+                    gc = bpch1(p, noscale=False, mode='c')
+                    v1 = view(gc, case)
+                    v2 = view(gc, case)
+                    res['modec'] = dict(first_same=(v1 == res['scaled']), second_same=(v2 == v1))
+                except lib.HarnessError:
+                    raise
+                except Exception as e:
+                    res['modec'] = dict(err='%s %s' % (type(e).__name__, str(e)[:80]))
+                # a tracer added to the file that was read (the attributes of an existing tracer, another number), written and
+                # walked block by block: every time step has one more block, with that tracer number and those values
+                try:
+                    fa = bpch1(p, noscale=True)
+                    keys = [k for k in fa.variables.keys() if hasattr(fa.variables[k], 'tracerid') and hasattr(fa.variables[k], 'category')
+                            and not k.startswith('layer')]
+                    tmpl = fa.variables[keys[0]]
+                    used = {int(fa.variables[k].tracerid) for k in keys}
+                    newid = max(used) + 1
+                    nk = keys[0] + 'X'
+                    nv = fa.createVariable(nk, 'f', tmpl.dimensions)
+                    for a in tmpl.ncattrs():
+                        setattr(nv, a, getattr(tmpl, a))
+                    nv.tracerid = newid
+                    nv[:] = np.asarray(tmpl[:]) + np.float32(1)
+                    d4 = os.path.join(d, 'added')
+                    os.makedirs(d4)
+                    outa = os.path.join(d4, 'a.bpch')
+                    ncf2bpch(fa, outa).close()
+                    rawa = open(outa, 'rb').read()
+                    # walk the records: 3 header records, then per block a 36-byte and a 168-byte record followed by the data
+                    off, nblocks, ids = 0, 0, []
+                    recs = []
+                    while off < len(rawa):
+                        n = struct.unpack('>i', rawa[off:off + 4])[0]
+                        recs.append((off + 4, n))
+                        off += n + 8
+                    for (o1, n1), (o2, n2) in zip(recs, recs[1:]):
+                        if n1 == 36 and n2 == 168:
+                            nblocks += 1
+                            ids.append(struct.unpack('>i', rawa[o2 + 40:o2 + 44])[0])
+                    nt = len(np.asarray(fa.variables['tau0'][:]))
+                    res['added'] = dict(nblocks=nblocks, expected=(len(keys) + 1) * nt, newid_blocks=ids.count(newid), nt=nt)
+                except lib.HarnessError:
+                    raise
+                except Exception as e:
+                    res['added'] = dict(err='%s %s' % (type(e).__name__, str(e)[:80]))
                 # a window of the time blocks (stepped, from the end, reversed)
                 sl = case.get('tslice')
                 if sl:
@@ -351,6 +398,21 @@ def oracle(case, res):
             return 'writing an in-memory copy of the scaled file changed its variables'
         if not mem['same']:
             return 'the same in-memory object written twice gives two different files'
+    mc = res.get('modec')
+    if mc is not None and not case.get('drop_line'):
+        if 'err' in mc:
+            return "bpch1(path, mode='c') raised " + mc['err']
+        if not mc['first_same']:
+            return "bpch1(path, mode='c') presents other values than the default read"
+        if not mc['second_same']:
+            return "bpch1(path, mode='c'): taking the tracers a second time gives other values than the first time"
+    ad = res.get('added')
+    if ad is not None and not case.get('drop_line'):
+        if 'err' in ad:
+            return 'a tracer added to the file that was read could not be written: ' + ad['err']
+        if ad['nblocks'] != ad['expected'] or ad['newid_blocks'] != ad['nt']:
+            return 'a tracer added to the file that was read: the written file has %d blocks (%d with the new tracer number), %d (%d) expected' % (
+                ad['nblocks'], ad['newid_blocks'], ad['expected'], ad['nt'])
     # the front end with the block-walking reader named and one option set: unscaled values under the grouped names /
     # scaled values under the short names
     fn = res.get('front_noscale')
@@ -398,6 +460,9 @@ def oracle(case, res):
         if case.get('drop_line') and not any(tid == b0['tid'] for tid, *_ in B.TRACERS[0] if b0['off'] != 0):
             return None        # a tracer with no table line at all: bpch2 does not accept the file (bpch1 names it by number)
         return 'the block-walking reader raised: ' + res['bpch2']['err']
+    if sorted(res['bpch2']['tau0']) != sorted(res['raw']['tau0']) or sorted(res['bpch2']['tau1']) != sorted(res['raw']['tau1']):
+        return 'bpch2 presents tau0 / tau1 %s %s, bpch1 (and the file) %s %s' % (
+            res['bpch2']['tau0'], res['bpch2']['tau1'], res['raw']['tau0'], res['raw']['tau1'])
     for a, b2 in zip(res['scaled']['vars'], res['bpch2']['vars']):
         if (a['key'], a['shape'], a['bits'], a['units']) != (b2['key'], b2['shape'], b2['bits'], b2['units']):
             fld = [n for n in ('key', 'shape', 'bits', 'units') if a[n] != b2[n]]
